@@ -72,7 +72,9 @@ CHURN = r'''
 
 NUMS = [0, -0.0, 1, -1, 2, 3, 0.5, -0.5, 2 ** 31 - 1, 2 ** 31, 2 ** 31 + 1, -2 ** 31, -2 ** 31 - 1, 2 ** 53 - 1, 2 ** 53,
         1e100, -1e100, float("inf"), float("-inf"), 127, 128, 255, 256, 1e-300]
-STRS = [b"", b"a", b"b", b"ab", b"ba", b"a\x00", b"a\x00b", b"\xff", b"abc", b"aa"]
+# the second row holds same-length strings with equal 33-multiplier hashes (c1*33+c2 equal): equal hash must not be taken for equal content
+STRS = [b"", b"a", b"b", b"ab", b"ba", b"a\x00", b"a\x00b", b"\xff", b"abc", b"aa",
+        b"bA", b"ac", b"bB", b"bb", b"cA", b"xab", b"xbA", b"abz", b"bAz", b"abab", b"bAbA", b"abbA"]
 
 
 def content_key(v):
